@@ -392,6 +392,38 @@ func tokText(ws []string) string {
 	return b.String()
 }
 
+// tokTextSep is tokText with the single blank between two tokens replaced by another piece of white space the lexer must treat
+// alike: a tab, several blanks, a backslash-newline continuation (alone, padded, or with CR LF). The choice is a function of the
+// token list and the salt only, so a replay reproduces it.
+func tokTextSep(ws []string, salt uint32) string {
+	seps := []string{" ", "\t", "  ", "\\\n", " \\\n ", "\\\r\n", " \t "}
+	h := uint32(2166136261) ^ salt
+	for _, w := range ws {
+		for i := 0; i < len(w); i++ {
+			h = (h ^ uint32(w[i])) * 16777619
+		}
+	}
+	plain := tokText(ws)
+	var b strings.Builder
+	// walk the plain text and the token list together: every blank that tokText put BETWEEN tokens is replaced
+	pos := 0
+	for k, w := range ws {
+		_ = w
+		if k > 0 {
+			h = h*1664525 + 1013904223
+			b.WriteString(seps[(h>>16)%uint32(len(seps))])
+			pos++ // the blank
+		}
+		piece := tokText(ws[k : k+1])
+		b.WriteString(piece)
+		pos += len(piece)
+	}
+	if pos != len(plain) {
+		return plain
+	}
+	return b.String()
+}
+
 // ---- the real syntax tree, by reflection (internal/ast types cannot be imported from here) ----
 
 func conv(v reflect.Value) *E {
